@@ -169,6 +169,17 @@ def run_attr(c):
                 except Warning:
                     pass
             expJ = None
+        elif form in ("ctor_pol_mutate_input", "set_pol_mutate_input", "ctor_mag_mutate_input", "set_mag_mutate_input"):
+            # the caller keeps using (and changing) the array it passed in: the object must not follow
+            a = (v if "pol" in form else v / mu0).astype(float).copy()
+            if form.startswith("ctor"):
+                o = C(**{"polarization" if "pol" in form else "magnetization": a}, **par)
+            else:
+                o = C(**par)
+                setattr(o, "polarization" if "pol" in form else "magnetization", a)
+            a *= 2.0
+            a += 1.0
+            expJ = v if "pol" in form else None
         elif form == "M_J_M":
             o = C(magnetization=(1e5, 2e5, 3e5), **par)
             o.polarization = (0.5, 0.5, 0.5)
@@ -197,8 +208,82 @@ def run_attr(c):
     return problems
 
 
+# ------------------------------------------------------------------ several bodies in one call
+BATCH_KINDS = ["meshA", "meshB", "meshA2", "cub", "ring", "tet", "meshT"]
+
+
+def mk_batch_body(kind, slot):
+    """disjoint bodies: slot k is centred at (3k, 0.2k, -0.1k); returns (source, local inside point, pol)"""
+    import magpylib as magpy
+    from scipy.spatial.transform import Rotation as R
+
+    pos = np.array((3.0 * slot, 0.2 * slot, -0.1 * slot))
+    ori = R.from_rotvec((0.1 * slot, -0.2, 0.15 * slot))
+    pol = (0.2 + 0.1 * slot, -0.3, 0.9 - 0.2 * slot)
+    cube = np.array(CUBE_V)
+    if kind == "meshA":
+        o = magpy.magnet.TriangularMesh(vertices=cube, faces=CUBE_F, polarization=pol, position=pos, orientation=ori)
+    elif kind == "meshA2":  # the same local mesh as meshA (a translated copy of the body)
+        o = magpy.magnet.TriangularMesh(vertices=cube.copy(), faces=CUBE_F, polarization=pol, position=pos, orientation=ori)
+    elif kind == "meshB":   # same face count, other geometry, shares some coordinates with meshA
+        o = magpy.magnet.TriangularMesh(vertices=cube * (1.6, 1.0, 0.7), faces=CUBE_F, polarization=pol, position=pos, orientation=ori)
+    elif kind == "meshT":
+        o = magpy.magnet.TriangularMesh(vertices=TV, faces=[(0, 2, 1), (0, 1, 3), (0, 3, 2), (1, 2, 3)], polarization=pol,
+                                        position=pos, orientation=ori)
+    elif kind == "cub":
+        o = magpy.magnet.Cuboid(dimension=(1.0, 1.2, 0.8), polarization=pol, position=pos, orientation=ori)
+    elif kind == "ring":
+        o = magpy.magnet.CylinderSegment(dimension=(0.4, 1.0, 0.6, 0, 360), polarization=pol, position=pos, orientation=ori)
+    elif kind == "tet":
+        o = magpy.magnet.Tetrahedron(vertices=TV, polarization=pol, position=pos, orientation=ori)
+    # meshB's point lies inside meshB but outside the shape of meshA / cub (so a mask taken from the wrong body shows)
+    inside_local = {"ring": (0.7, 0.1, 0.05), "tet": (0.05, 0.02, 0.0), "meshT": (0.05, 0.02, 0.0),
+                    "meshB": (0.7, -0.07, 0.05)}.get(kind, (0.11, -0.07, 0.05))
+    return o, np.array(inside_local), np.array(pol)
+
+
+def run_batch(c):
+    import magpylib as magpy
+
+    kinds = c["kinds"]
+    bodies = [mk_batch_body(k, i) for i, k in enumerate(kinds)]
+    srcs = [b[0] for b in bodies]
+    obs = np.array([b[0].orientation.apply(b[1]) + b[0].position for b in bodies] + [(1.5, 4.0, 2.0)])
+    if c.get("collection"):
+        srcs_arg = [magpy.Collection(*srcs)]
+    else:
+        srcs_arg = srcs
+    mu0 = magpy.mu_0
+    out = {}
+    for f in "BHJM":
+        out[f] = np.asarray(getattr(magpy, "get" + f)(srcs_arg, obs, squeeze=False))[:, 0, 0]   # (l, n_obs, 3)
+    problems = []
+    B, H, J, M = out["B"], out["H"], out["J"], out["M"]
+    res = np.linalg.norm(B - mu0 * H - J, axis=-1)
+    sc = np.maximum.reduce([np.linalg.norm(B, axis=-1), mu0 * np.linalg.norm(H, axis=-1), np.linalg.norm(J, axis=-1)])
+    for l, k in np.argwhere(res > REL * np.maximum(sc, 1e-300))[:3]:
+        problems.append(("batch-B-mu0H-J", f"source {l} observer {k}: |B-mu0H-J|={res[l, k]:.3g}", None))
+    if np.max(np.abs(J - mu0 * M)) > 1e-15 * np.max(np.abs(J) + 1e-300):
+        problems.append(("batch-J-mu0M", "J != mu_0*M", None))
+    if not c.get("collection"):
+        for l, (o, _, pol) in enumerate(bodies):
+            for k in range(len(obs)):
+                want = o.orientation.apply(pol) if k == l else np.zeros(3)
+                if np.linalg.norm(J[l, k] - want) > 1e-14:
+                    problems.append(("batch-J-wrong-body", f"source {l} ({kinds[l]}) observer {k} ({'own inside point' if k == l else 'outside'}): "
+                                                           f"J={J[l, k].tolist()} expected {want.tolist()}", None))
+    else:
+        for k in range(len(obs)):
+            want = bodies[k][0].orientation.apply(bodies[k][2]) if k < len(bodies) else np.zeros(3)
+            if np.linalg.norm(J[0, k] - want) > 1e-14:
+                problems.append(("batch-J-wrong-body", f"collection, observer {k}: J={J[0, k].tolist()} expected {want.tolist()}", None))
+    return {"rows": 4 * len(obs) * len(srcs), "problems": problems[:4], "n_inside": len(bodies), "n_surface": 0}
+
+
 def work(c):
     try:
+        if c["part"] == "batch":
+            return run_batch(c)
         if c["part"] == "field":
             return run_case(c)
         return {"rows": 1, "problems": [(k, d, None) for k, d in run_attr(c)]}
@@ -220,9 +305,18 @@ def enumerate_cases(tier):
                             continue
                         cases.append({"part": "field", "cls": cls, "regime": ri, "pol": pi, "pose": po, "in_out": io})
     for cls in MAGNETS + ["Triangle"]:
-        for form in ("ctor_pol", "ctor_mag", "set_pol", "set_mag", "J_M_J", "M_J_M", "set_mag_warning_as_error", "set_pol_warning_as_error"):
+        for form in ("ctor_pol", "ctor_mag", "set_pol", "set_mag", "J_M_J", "M_J_M", "set_mag_warning_as_error", "set_pol_warning_as_error",
+                     "ctor_pol_mutate_input", "set_pol_mutate_input", "ctor_mag_mutate_input", "set_mag_mutate_input"):
             for val in ((0.2, -0.3, 0.9), (0, 0, 0), (1e-12, 0, 2e-12), (1e12, -3e12, 2e12), (0, 0, 1.0)):
                 cases.append({"part": "attr", "cls": cls, "form": form, "value": list(val)})
+    import itertools
+
+    for n in (2, 3):
+        for kinds in itertools.product(BATCH_KINDS, repeat=n):
+            for coll in (False, True):
+                if coll and n == 3 and tier == "quick":
+                    continue
+                cases.append({"part": "batch", "kinds": list(kinds), "collection": coll})
     return cases
 
 
@@ -236,6 +330,11 @@ def run(tier, seed):
             harness.append(f"{c}: {r['harness']}")
             continue
         rows += r["rows"] * (4 if c["part"] == "field" else 1)
+        if c["part"] == "batch":
+            for kind, detail, loc in r["problems"]:
+                viols.append({"key": f"C02|batch|{kind}|{'+'.join(sorted(set(c['kinds'])))}", "what": f"{c}: {kind}: {detail}", "case": c,
+                              "observed": [kind, detail]})
+            continue
         nsurf += r.get("n_surface", 0)
         nins += r.get("n_inside", 0)
         nnonfin += r.get("n_nonfinite", 0)
